@@ -16,3 +16,4 @@ vmod!(sched, "sched.rs");
 vmod!(types, "types.rs");
 vmod!(rbench, "rbench.rs");
 vmod!(wbench, "wbench.rs");
+vmod!(codec, "codec.rs");
